@@ -42,13 +42,17 @@ class ViewerWorld:
         self.had = set()
         self.allow_known = False
         self.skipped_known = 0
+        self.selected = 0
+        self.select_raised = []
 
     def new_data(self):
         from glue.core import Data
         self.counter += 1
         k = self.counter
         if self.kind in ("image", "profile"):
-            d = Data(label="d%d" % k, x=np.arange(6.0).reshape(2, 3) + k, y=np.arange(6.0).reshape(2, 3) * k)
+            shape = (2, 3) if k % 2 else (2, 3, 2)
+            n = int(np.prod(shape))
+            d = Data(label="d%d" % k, x=np.arange(float(n)).reshape(shape) + k, y=np.arange(float(n)).reshape(shape) * k)
         else:
             d = Data(label="d%d" % k, x=np.arange(4.0) + k, y=np.arange(4.0) * k, c=np.array(["p", "q", "p", "r"]))
         return d
@@ -126,6 +130,26 @@ class ViewerWorld:
             layer = ls.layer
             self.viewer.state.layers.remove(ls)
             self.expected = [l for l in self.expected if l is not layer]
+        elif k == "select" and self.viewer is not None:
+            # an explicit selection in one of the viewer state's pickers (for an image viewer: choosing an axis, which
+            # may be the one currently shown on the other axis)
+            names = {"image": ["x_att_world", "y_att_world", "reference_data"], "scatter": ["x_att", "y_att"], "histogram": ["x_att"],
+                     "profile": ["x_att", "reference_data"]}[self.kind]
+            name = names[i % len(names)]
+            prop = getattr(type(self.viewer.state), name)
+            try:
+                choices = [c for c in prop.get_choices(self.viewer.state) if type(c).__name__ != "ChoiceSeparator"]
+            except Exception:
+                choices = []
+            if choices:
+                j = op[2] if len(op) > 2 else 0
+                self.selected += 1
+                try:
+                    setattr(self.viewer.state, name, choices[j % len(choices)])
+                except Exception as e:  # noqa
+                    if blame(e)[0] != "glue":
+                        raise
+                    self.select_raised.append("%s:%s" % (name, type(e).__name__))     # the invariant below decides
         elif k == "delay":
             with dc.hub.delay_callbacks():
                 for sub in op[1]:
@@ -245,6 +269,10 @@ def fn_viewer(spec, rec):
         rec.label("has-restore")
     if any(op[0] == "delay" for op in spec["ops"]):
         rec.label("has-delay")
+    if w.selected:
+        rec.label("has-explicit-selection")
+    for x in w.select_raised:
+        rec.label("selection-raised:" + x)
 
 
 # --------------------------------------------------------------------------- combo helpers
@@ -474,9 +502,33 @@ def fn_state_roundtrip(spec, rec):
             raise Mismatch("state-restore-raises/%s/%s" % (kind, type(e).__name__), repr(e)[:400])
         after = state_values(st2)
         from ..session import first_difference
+        # What the property states about a restored state: the same layers, every picker selects one of its choices (or nothing
+        # when there are none), image axes are distinct pixel axes of the reference data.  Other property values (limits, modes,
+        # percentiles, ...) are compared too, but a difference there is only counted: the property does not speak about them.
+        if len(before.get("layers") or []) != len(after.get("layers") or []):
+            raise Mismatch("state-roundtrip-differs/%s/number-of-layers" % kind, {"before": len(before.get("layers") or []), "after": len(after.get("layers") or [])})
+        for stt in [st2] + list(st2.layers):
+            for name, prop in sorted(stt.iter_callback_properties()):
+                if not hasattr(prop, "get_choices"):
+                    continue
+                try:
+                    choices = [c for c in prop.get_choices(stt) if type(c).__name__ != "ChoiceSeparator"]
+                except Exception:
+                    continue
+                val = getattr(stt, name)
+                if choices and not any(val is c or val == c for c in choices):
+                    raise Mismatch("restored-picker-selection-not-among-choices/%s/%s" % (kind, name), {"value": str(val), "choices": [str(c) for c in choices]})
+                if not choices and val is not None:
+                    raise Mismatch("restored-picker-selection-without-choices/%s/%s" % (kind, name), {"value": str(val)})
+        if kind == "image" and st2.reference_data is not None:
+            pix = st2.reference_data.pixel_component_ids
+            if st2.x_att is st2.y_att:
+                raise Mismatch("restored-image-axes-not-distinct", {"x_att": str(st2.x_att)})
+            if not any(st2.x_att is p for p in pix) or not any(st2.y_att is p for p in pix):
+                raise Mismatch("restored-image-axes-not-pixel-axes-of-reference-data", None)
         diff = first_difference(before, after)
         if diff:
-            raise Mismatch("state-roundtrip-differs/%s/%s" % (kind, diff[0].strip("/").replace("/", ".")), {"path": diff[0], "before": diff[1], "after": diff[2]})
+            rec.label("other-value-differs-after-restore:%s:%s" % (kind, diff[0].strip("/").split("/")[-1] if not diff[0].strip("/").split("/")[-1].isdigit() else diff[0].strip("/").split("/")[-2]))
     finally:
         try:
             import matplotlib.pyplot as plt
@@ -498,7 +550,7 @@ simple = st.one_of(
     st.tuples(st.just("append")), st.tuples(st.just("remove"), idx), st.tuples(st.just("reappend"), idx), st.tuples(st.just("group"), idx),
     st.tuples(st.just("rmgroup"), idx), st.tuples(st.just("addcomp"), idx), st.tuples(st.just("rmcomp"), idx),
     st.tuples(st.just("add_data"), idx), st.tuples(st.just("add_data"), idx), st.tuples(st.just("add_subset"), idx, idx),
-    st.tuples(st.just("remove_data"), idx), st.tuples(st.just("remove_layer"), idx),
+    st.tuples(st.just("remove_data"), idx), st.tuples(st.just("remove_layer"), idx), st.tuples(st.just("select"), idx, idx),
 ).map(list)
 vop = st.one_of(simple, simple, simple, simple, st.tuples(st.just("delay"), st.lists(simple, min_size=1, max_size=3)).map(list), st.tuples(st.just("restore")).map(list))
 
